@@ -30,5 +30,6 @@ def run(col, configs, tier):
         guarded(col, P.rule_step_bounded_accumulation, facts)
         guarded(col, X.rule_sticky_flag, facts)
         guarded(col, X.rule_sticky_scans, facts)
+        guarded(col, X.rule_hi_truncation, facts)
         guarded(col, X.rule_bigfloat_bits, facts)
         guarded(col, X.rule_error_accounting, facts)
